@@ -19,5 +19,6 @@ func init() {
 			ruleALOwner(c)
 			ruleCDPure(c)
 			ruleLKReent(c)
+			ruleALBuf(c)
 		})
 }
